@@ -203,6 +203,10 @@ func init() {
 				cc := c
 				emit(LayoutCase{Kind: "merge", Merge: &cc})
 			})
+			genBigMerges(tier, func(c enum.MergeCase) {
+				cc := c
+				emit(LayoutCase{Kind: "merge", Merge: &cc})
+			})
 			sb := synBounds(tier)
 			sb.maxLen1 = 2
 			if tier == "quick" {
